@@ -382,7 +382,7 @@ def _sections(text: str, marks: List[Tuple[str, str]]) -> Dict[str, str]:
     return out
 
 
-def parse_py(text: str, I: Interner) -> List[str]:
+def parse_py(text: str, I: Interner, resolve=None) -> List[str]:
     S = _sections(text, [("const", "\n# Constants\n"), ("str", "\n# String Constants\n"), ("alias", "\n# Type Aliases\n"),
                          ("host", "\n# Host IDs\n"), ("mod", "\n# Module IDs\n"), ("mt", "\n# Message Type IDs\n"),
                          ("sdf", "\n# Struct Definitions\n"), ("mdf", "\n# Message Definitions\n"),
@@ -423,20 +423,30 @@ def parse_py(text: str, I: Interner) -> List[str]:
         def ref(a):
             return f"r.m.{I(a.id[4:])}" if a.id.startswith("MDF_") else f"r.s.{I(a.id)}"
 
+        def num(a):
+            """an array length: a literal, or a name whose value is what the *loaded module* binds it to"""
+            if isinstance(a, ast.Constant):
+                return a.value
+            if isinstance(a, ast.Name) and resolve is not None:
+                v = resolve(a.id)
+                if isinstance(v, int):
+                    return v
+            return "?" + ast.unparse(a).replace(" ", "")
+
         if fn in PYDESC:
             return f"{name}:n.{den_tok(PYDESC[fn])}:-:1"
         if fn == "String":
-            return f"{name}:n.1.c:{args[0].value}:1"
+            return f"{name}:n.1.c:{num(args[0])}:1"
         if fn == "ByteArray":
-            return f"{name}:n.1.u:{args[0].value}:1"
+            return f"{name}:n.1.u:{num(args[0])}:1"
         if fn in ("IntArray", "FloatArray"):
             d = PYDESC.get(args[0].id)
             okk = d is not None and ((fn == "IntArray") == (d[1] in "su"))
-            return f"{name}:{'n.' + den_tok(d) if okk else 'bad'}:{args[1].value}:1"
+            return f"{name}:{'n.' + den_tok(d) if okk else 'bad'}:{num(args[1])}:1"
         if fn == "Struct":
             return f"{name}:{ref(args[0])}:-:1"
         if fn == "StructArray":
-            return f"{name}:{ref(args[0])}:{args[1].value}:1"
+            return f"{name}:{ref(args[0])}:{num(args[1])}:1"
         return f"{name}:bad:-:1"
 
     for key, sp in (("sdf", "s"), ("mdf", "m")):
@@ -845,6 +855,20 @@ def probe_python(out: Path) -> Dict[str, Any]:
         return {"ok": False, "error": (r.stderr or r.stdout)[-300:]}
 
 
+def py_namespace(out: Path) -> Dict[str, Any]:
+    """int-valued globals of the generated Python module as a fresh interpreter binds them after import"""
+    code = ("import sys, json, importlib.util\n"
+            "sys.path.insert(0, sys.argv[2])\n"
+            "spec = importlib.util.spec_from_file_location('defs_ns', sys.argv[1] + '/defs.py')\n"
+            "m = importlib.util.module_from_spec(spec); spec.loader.exec_module(m)\n"
+            "print(json.dumps({k: v for k, v in vars(m).items() if isinstance(v, int) and not isinstance(v, bool)}))\n")
+    r = subprocess.run([PY, "-c", code, str(out), str(C.REPO / "src")], capture_output=True, text=True, timeout=120)
+    try:
+        return json.loads(r.stdout.strip().splitlines()[-1])
+    except Exception:
+        return {}
+
+
 def probe_node(out: Path) -> Optional[Dict[str, Any]]:
     node = C.find_node()
     if node is None:
@@ -988,14 +1012,28 @@ def run_closure(cid: str, cl: Dict[str, Any], tmp_root: Path, want: Dict[str, bo
             blk += reg_lines(p, I)
             texts = {k: (out / f"defs.{k}").read_text() for k in ("py", "h", "js", "m")}
             node = probe_node(out) if want.get("probes") else None
-            pyS = parse_py(texts["py"], I)
-            cS, c_alias = parse_c(texts["h"], I)
+            # an output that no longer has the shape the statement parsers expect is an observation ("unparsable"), not a
+            # crash of the harness: the model's statements then differ (CORR), and the tool probes below still decide
+            def _safe(fn, *a, default):
+                try:
+                    return fn(*a)
+                except Exception as e:  # noqa: BLE001
+                    obs.setdefault("unparsable", []).append(f"{fn.__name__}: {type(e).__name__}: {e}")
+                    return default
+            _ns: Dict[str, Any] = {}
+
+            def _resolve(nm: str):
+                if not _ns:
+                    _ns.update(py_namespace(out) or {"__failed__": 1})
+                return _ns.get(nm)
+            pyS = _safe(lambda t, i: parse_py(t, i, resolve=_resolve), texts["py"], I, default=["bad unparsable-py"])
+            cS, c_alias = _safe(parse_c, texts["h"], I, default=(["bad unparsable-c"], set()))
             core_alias = {str(I(a.name)) for a in p.aliases.values()}
             struct_ids = {str(I(s.name)) for s in p.struct_defs.values()}
             # a `T name;` member of a C struct names an alias iff a typedef-alias line (here or in RTMA.h) made it one
             cS = _fix_c_refs(cS, c_alias | core_alias, {t.split()[2] for t in cS if t.startswith("def s ")})
-            jsS = parse_js(texts["js"], I, (node or {}).get("fresh"))
-            mS = _fix_m_refs(parse_m(texts["m"], I))
+            jsS = _safe(parse_js, texts["js"], I, (node or {}).get("fresh"), default=["bad unparsable-js"])
+            mS = _safe(lambda t, i: _fix_m_refs(parse_m(t, i)), texts["m"], I, default=["bad unparsable-m"])
             blk += ["PY " + s for s in pyS] + ["C " + s for s in cS] + ["JS " + s for s in jsS] + ["M " + s for s in mS]
             if want.get("probes"):
                 pr = probe_python(out)
@@ -1056,6 +1094,17 @@ def run_closure(cid: str, cl: Dict[str, Any], tmp_root: Path, want: Dict[str, bo
                     for f in ("defs.py", "defs.h", "defs.js", "defs.m", "defs_combined.yaml"):
                         if (out / f).read_bytes() != (out2 / f).read_bytes():
                             diffs.append(f)
+                # third compile: from the parent directory, root file spelled with a directory component
+                out3 = work / "out3"
+                rel3 = os.path.relpath(root, work)
+                oc5, err5 = real_compile(cl, Path(rel3), out3, cwd=work, python=True, javascript=True,
+                                         matlab=True, c_lang=True, combined=True)
+                if oc5 != ["ok"]:
+                    diffs.append("third compile: " + " ".join(oc5) + " " + err5)
+                else:
+                    for f in ("defs.py", "defs.h", "defs.js", "defs.m", "defs_combined.yaml"):
+                        if (out / f).read_bytes() != (out3 / f).read_bytes():
+                            diffs.append(f + "@parent")
                 obs["nondeterministic"] = diffs
         blk.append("END")
         return {"block": tbl + blk, "names": I.names, "obs": obs}
